@@ -1,5 +1,5 @@
 \* same-pool contention: the CAS on the pool counter makes the limit hard
-CONSTANTS Threads = {1, 2}  Sizes = {5, 8}  MaxOpsPerThread = 2  Prefill = 20  Limit = 32  CasOnTotal = FALSE
+CONSTANTS Threads = {1, 2}  Sizes = {2, 8}  MaxOpsPerThread = 2  Prefill = 22  Limit = 32  CasOnTotal = FALSE
 CONSTANT PoolsOf <- PoolsSame
 SPECIFICATION FairSpec
 VIEW view
